@@ -24,7 +24,7 @@ ASSUMPTIONS = [
 
 
 def floors(tier):
-    return {"evals": 2000 if tier == "quick" else 20000, "distinct": 300,
+    return {"evals": 2000 if tier == "quick" else 12000, "distinct": 300,
             "classes": {"has-loop": 200, "has-handler": 100, "has-branch": 500, "stdlib": 300, "generated": 1000, "generator-function": 5,
                         "infinite-loop": 3}}
 
